@@ -142,8 +142,10 @@ def same(d1, d2, scale):
         return f"class {d1[1]} vs {d2[1]}"
     if d1[2] != d2[2]:
         return f"system {d1[2]} vs {d2[2]}"
-    for a, b in zip(d1[3], d2[3]):
+    for k, (a, b) in enumerate(zip(d1[3], d2[3])):
         if not close(a, b):
+            if k == 3 and len(d1[2]) == 3 and d1[2][2] == "tau" and max(abs(a), abs(b)) <= 1e-4 * math.sqrt(scale):
+                continue     # tau = sign * sqrt|t^2 - p^2| next to the light cone: square-root of rounding
             return f"coordinates {d1[3]} vs {d2[3]}"
     return None
 
@@ -194,6 +196,8 @@ def run_job(job):
         return recs, 0, 0
     compiled = 0
     for case in job["cases"]:
+        if case["exp"] == ["bool", "either"]:
+            continue             # an exact tie of a tolerance predicate: either answer is allowed
         va = algebra.vec_of(case["a"])
         vb = algebra.vec_of(case["b"]) if case["b"] else None
         if not coords.representable(va, sa) or (vb is not None and not coords.representable(vb, sb)):
